@@ -672,3 +672,40 @@ def run(ctx) -> None:  # noqa: F811
     _tilt_product_rule(ctx)
     _base_tilt_polarity_rule(ctx)
     _inner_run_c39c(ctx)
+
+
+# ---- added after the seeded change C39-r4seed2: the memoised kernel is the kernel of *these* waves
+_inner_run_c39d = run
+
+KERNEL_CACHE = "abtem.multislice.FresnelPropagator.get_array"
+
+
+def run(ctx) -> None:  # noqa: F811
+    from ..report import OnlyConstructs
+    from ..rules import memo2
+
+    ctx.rule("R-KERNELKEY", "FresnelPropagator.get_array keeps the last kernel and returns it again when its key "
+             "compares equal.  Tilted propagation equals untilted propagation followed by the shift dz·tan(t) only if "
+             "the kernel that is returned was computed for the tilts of the waves at hand, so the key has to determine "
+             "everything the kernel computation (followed into _calculate_array and the helpers it calls) reads of "
+             "the waves: each attribute it reads, and — because it visits waves.ensemble_axes_metadata element by "
+             "element, gives the array one axis per element and multiplies in the phase ramps of the elements that "
+             "carry a tilt — for every element which arm it takes and the tilt values it contributes.  The key must "
+             "therefore hold the collection itself or an unfiltered element-by-element image of it that separates the "
+             "arms and retains, on each arm, what the value reads there (the attribute itself, the whole element, or "
+             "the fields a property is computed from), through lossless wrappers only: a key over the filtered "
+             "sub-collection, a length, an identity, rounded values or a projection without the tilt values lets a "
+             "propagator that is reused (the documented purpose of the `propagator` argument) return the kernel of an "
+             "earlier tilt series — a stale kernel, whose shift is that of other angles.  (Rule R-CACHEKEY of "
+             "sa/rules/memo2.py restricted to this cache.)")
+    memo2.positive_control(ctx)
+    stats: dict = {}
+    n = memo2.check(OnlyConstructs(ctx, (KERNEL_CACHE,)), rule="R-KERNELKEY", modules={MS}, stats=stats)
+    mine = {k: v for k, v in stats.items() if k.startswith(KERNEL_CACHE + ":")}
+    ctx.require(n >= 1 and len(mine) == 1, f"{KERNEL_CACHE}: the key / kernel slot pair was not recognised")
+    (st,) = mine.values()
+    has_violation = any(i.verdict == "violation" and i.rule == "R-KERNELKEY" for i in ctx.instances)
+    ctx.require(has_violation or st["uses"] >= 1,
+                f"{KERNEL_CACHE}: the element-by-element use of the tilt axes by the kernel computation was not found "
+                "(the cached value could not be followed into the loop over the ensemble axes)")
+    _inner_run_c39d(ctx)
